@@ -254,3 +254,16 @@ func runCase(c *Case, f func()) (o Outcome) {
 // instead of bit-blasting).  Overflows reports how many operations could wrap.
 func IntMode(on bool) {}
 func Overflows() int   { return 0 }
+
+func IteI64(c bool, a, b int64) int64 {
+	if c {
+		return a
+	}
+	return b
+}
+func BoolToI64(b bool) int64 {
+	if b {
+		return 1
+	}
+	return 0
+}
